@@ -16,10 +16,13 @@
 //!   `layout_u8`, `layout_multibyte`, `iter_toList`, `iter_next`, `iter_nth`, `size_hint_exact`,
 //!   `size_hint_brackets`.
 //!
-//! Not generated on purpose: indices above `usize::MAX / 4`. There `index * 2/3/4` in the
-//! multi-byte `load`/`store` overflows `usize` (checked build: panic "attempt to multiply with
-//! overflow", e.g. `raw.load 16 0 1,2 9223372036854775808`; the model, with `Nat` indices, says
-//! `none`). That is an arithmetic-range observation for C08, not part of C11's scope.
+//! Huge indices ARE generated (`usize::MAX / 4 + 1`, `usize::MAX / 2 + 1`, `usize::MAX`, ...): since
+//! /repo commit e95846b the multi-byte `load`/`store` compute the byte offset with `checked_mul`, so
+//! an index whose byte offset does not fit `usize` is rejected like any other index beyond the
+//! buffer (`None` / `Err`, buffer unchanged); the model's `Nat` product + slice test says the same.
+//! Iterator scripts drive the running position past `usize::MAX` (`nth(i64::MAX)` twice, then
+//! `nth(2 + j)`): the real `nth` must saturate there; a wrapping add would yield item `j` again.
+//! The oracle's reference position is the mathematical sum (u128), not a saturating one.
 use crate::common::*;
 use embedded_graphics::{iterator::raw::RawDataSlice, pixelcolor::raw::*};
 
@@ -203,8 +206,9 @@ impl Module for M {
     fn rule(&self) -> &'static str {
         "ops: every depth (1,2,4,8,16,24,32) x both data orders x buffer lengths 0..=L (L=6 quick, 12 thorough) x 3 background \
          patterns x every pixel index 0..=pixel_count+2 x values (all for <= 8 bit, all 65536 for 16 bit in the thorough tier, \
-         boundary + seeded random above); iterator scripts of next()/nth(k) (all single nth(k) for k to pixel_count+2, then \
-         seeded random scripts). A store op is non-trivial when the index is inside the buffer and the stored value differs \
+         boundary + seeded random above); iterator scripts of next()/nth(k) (all single nth(k) for k to pixel_count+2, scripts whose \
+         running position passes usize::MAX so that nth must saturate, then seeded random scripts); the size_hint oracle \
+         demands bracketing only (lower <= remaining <= upper), exactness is what the model comparison adds. A store op is non-trivial when the index is inside the buffer and the stored value differs \
          from the value loaded before; an iterator op when the buffer holds at least one pixel; a load op when it is inside. \
          distinct = distinct op text."
     }
@@ -269,6 +273,16 @@ impl Module for M {
                             emit(format!("raw.iter {} {} {} {},-1,0", bits, order, bs, 1u64 << 40));
                             emit(format!("raw.iter {} {} {} {},-1,0", bits, order, bs, 1u64 << 62));
                             emit(format!("raw.iter {} {} {} -1,{},-1", bits, order, bs, (1u64 << 62) - 1));
+                            // the running position passes usize::MAX: `nth` must saturate, not wrap.
+                            // 0 -> 2^63-1 -> 2^64-2, then nth(2+j) would wrap to position j (item j again);
+                            // after one next(): 1 -> 2^63 -> 2^64-1 (= usize::MAX exactly), nth(1+j) would wrap to j.
+                            let big = i64::MAX;
+                            emit(format!("raw.iter {} {} {} -1,{},{},2,-1", bits, order, bs, big, big));
+                            for j in 0..=(count.min(6) + 1) {
+                                emit(format!("raw.iter {} {} {} {},{},{},-1,0", bits, order, bs, big, big, 2 + j));
+                                emit(format!("raw.iter {} {} {} -1,{},{},{},-1", bits, order, bs, big, big, 1 + j));
+                            }
+                            emit(format!("raw.iter {} {} {} {},{},{},{},0,-1", bits, order, bs, big, big, big, big));
                         }
                     }
                 }
@@ -382,9 +396,12 @@ impl Module for M {
                 }
                 // reference: position in [load 0, load 1, ...]
                 let items: Vec<u32> = (0..count).map(|j| ref_load(bits, order, &buf, j).unwrap()).collect();
-                let mut pos: usize = 0;
+                // position as a mathematical integer: "nth skips accordingly" means k items are skipped,
+                // however large k is (the real index saturates at usize::MAX, which is beyond every buffer)
+                let mut pos: u128 = 0;
+                let remaining_at = |pos: u128| -> usize { (count as u128).saturating_sub(pos) as usize };
                 for (n, (h, r)) in steps.iter().enumerate() {
-                    let remaining = count.saturating_sub(pos);
+                    let remaining = remaining_at(pos);
                     // size_hint brackets the number of remaining items
                     ctx.expect(h.0 <= remaining && h.1.map_or(true, |u| remaining <= u), "size-hint-bracket", || {
                         format!("{} step {} hint {:?} remaining {}", op, n, h, remaining)
@@ -396,12 +413,15 @@ impl Module for M {
                     }
                     let k = script[n];
                     if k >= 0 {
-                        pos = pos.saturating_add(k as usize);
+                        pos += k as u128;
                         ctx.count("iter:nth");
+                        if pos > usize::MAX as u128 {
+                            ctx.count("iter:nth-position-beyond-usize-max");
+                        }
                     } else {
                         ctx.count("iter:next");
                     }
-                    let want = items.get(pos).copied();
+                    let want = if pos < count as u128 { Some(items[pos as usize]) } else { None };
                     if want.is_some() {
                         pos += 1;
                     }
@@ -409,11 +429,11 @@ impl Module for M {
                         format!("{} step {} got {:?} want {:?}", op, n, r, want)
                     });
                 }
-                let remaining = count.saturating_sub(pos);
+                let remaining = remaining_at(pos);
                 ctx.expect(end.0 <= remaining && end.1.map_or(true, |u| remaining <= u), "size-hint-bracket", || {
                     format!("{} end hint {:?} remaining {}", op, end, remaining)
                 });
-                let want_rest: &[u32] = if pos < count { &items[pos..] } else { &[] };
+                let want_rest: &[u32] = if pos < count as u128 { &items[pos as usize..] } else { &[] };
                 ctx.expect(rest == want_rest, "iter-items", || format!("{} rest {:?} want {:?}", op, rest, want_rest));
                 format!(
                     "{} end={} rest={}",
